@@ -5,6 +5,7 @@ import (
 	"fmt"
 	"go/ast"
 	"golang.org/x/tools/go/packages"
+	"os"
 	"strings"
 
 	"golang.org/x/tools/go/ssa"
@@ -152,6 +153,14 @@ func upgradeByInlining(c *Ctx, spec *propSpec) {
 				allTainted = true
 			}
 		}
+		if os.Getenv("TYPCHECK_TRACE") != "" {
+			for _, o := range R2.Obs {
+				if o.Verdict != Held {
+					fmt.Printf("TRACE view %d: %s %s: %s\n", mode, o.Verdict, o.Key(), o.Msg)
+				}
+			}
+			fmt.Printf("TRACE view %d tainted=%v all=%v\n", mode, tainted, allTainted)
+		}
 		for _, o := range R2.Obs {
 			v.counts[o.Rule]++
 			if o.Verdict == Held && !tainted[o.Rule] && !allTainted {
@@ -201,6 +210,11 @@ func upgradeByInlining(c *Ctx, spec *propSpec) {
 			continue
 		}
 		done := false
+		if os.Getenv("TYPCHECK_TRACE") != "" {
+			for i, v := range views {
+				fmt.Printf("TRACE merge %s: view %d held=%v skipped=%v\n", o.Key(), i+1, v.held[o.Key()] != nil, v.skipped[o.Construct])
+			}
+		}
 		for i, v := range views {
 			if h := v.held[o.Key()]; h != nil {
 				o.Verdict = Held
